@@ -346,7 +346,9 @@ func checkC01(p *Prog, res *Result, tier string) {
 		if (o.Rule == "C11-R1" && (strings.Contains(o.Construct, "CAS") || strings.Contains(o.Construct, "PutIfNotExist"))) ||
 			(o.Rule == "C11-R2" && (strings.Contains(o.Construct, "Commit:") || strings.Contains(o.Construct, "memkv:"))) ||
 			// the metrics wrapper in front of every engine hands the conditional operations on unchanged
-			(o.Rule == "C11-R5" && (strings.HasSuffix(o.Construct, ".CAS") || strings.HasSuffix(o.Construct, ".PutIfNotExist") || strings.HasSuffix(o.Construct, ".DelCurrent") || strings.HasSuffix(o.Construct, ".Commit"))) {
+			(o.Rule == "C11-R5" && (strings.HasSuffix(o.Construct, ".CAS") || strings.HasSuffix(o.Construct, ".PutIfNotExist") || strings.HasSuffix(o.Construct, ".DelCurrent") || strings.HasSuffix(o.Construct, ".Commit"))) ||
+			// a read leaves the records alone (the in-process engine's seek marker), the condition is read inside the batch's transaction
+			(o.Rule == "C11-R3" && strings.Contains(o.Construct, "read path removes only")) {
 			res.add("C01-R6", o.Rule+" "+o.Construct, o.Status, o.Pos, o.Detail)
 		}
 	}
